@@ -284,6 +284,51 @@ fn lab_attrs() -> Labels {
     Labels { names: vec!["a"], attr_opts: vec![vec![], vec!["x"], vec!["y"], vec!["x", "y"], vec!["y", "x"], vec!["y", "z", "x"]], text_opts: vec![0, 2] }
 }
 
+
+/// documents built to cross small numeric thresholds: k same-named children (k = 1..9) in one parent followed by an
+/// empty / child-less occurrence of the parent, and j occurrences of the parent (j = 2..7) with the child absent in one
+fn threshold_family() -> Vec<Vec<Node>> {
+    let leaf = |n: &str| Node { name: n.to_string(), attrs: vec![], text: 0, kids: vec![] };
+    let mut out: Vec<Vec<Node>> = Vec::new();
+    for k in 1..10usize {
+        for second in 0..3 {
+            let mut x1 = leaf("x");
+            for _ in 0..k {
+                x1.kids.push(leaf("c"));
+            }
+            if second == 2 {
+                x1.kids.push(leaf("d"));
+            }
+            let mut x2 = leaf("x");
+            if second == 1 {
+                x2.kids.push(leaf("d"));
+            }
+            let r = Node { name: "r".into(), attrs: vec![], text: 0, kids: vec![x1.clone(), x2.clone()] };
+            out.push(vec![r]);
+            // the same across two documents
+            out.push(vec![Node { name: "r".into(), attrs: vec![], text: 0, kids: vec![x1] }, Node { name: "r".into(), attrs: vec![], text: 0, kids: vec![x2] }]);
+        }
+    }
+    for j in 2..8usize {
+        for absent in 0..j {
+            let mut kids = Vec::new();
+            for i in 0..j {
+                let mut p = leaf("p");
+                if i != absent {
+                    p.kids.push(leaf("c"));
+                }
+                if i == j - 1 {
+                    p.kids.push(leaf("e"));
+                }
+                kids.push(p);
+            }
+            out.push(vec![Node { name: "r".into(), attrs: vec![], text: 0, kids: kids.clone() }]);
+            out.push(kids.into_iter().map(|p| Node { name: "r".into(), attrs: vec![], text: 0, kids: vec![p] }).collect());
+        }
+    }
+    out
+}
+
 /// the document sequences every tree-level property is searched over
 fn sequences(tier: &str, seed: u64, mut f: impl FnMut(&[Vec<u8>]) -> bool) {
     let st = Style::default();
@@ -333,6 +378,14 @@ fn sequences(tier: &str, seed: u64, mut f: impl FnMut(&[Vec<u8>]) -> bool) {
                 if f(&xs) {
                     return;
                 }
+            }
+        }
+    }
+    for seq in threshold_family() {
+        for stl in [&st, &st_long] {
+            let xs: Vec<Vec<u8>> = seq.iter().map(|d| write_doc(d, stl).into_bytes()).collect();
+            if f(&xs) {
+                return;
             }
         }
     }
@@ -480,7 +533,7 @@ fn search_tree_prop(prop: &str, tier: &str, seed: u64) {
         }
     });
     let _ = found;
-    stats.print("document sequences parse(D1), extend(D2..): exhaustive small forests under a root (names a,b; attribute lists over x,y,z; text/CDATA; both empty-element spellings) as singles, pairs, triples, seven big documents (300 distinct siblings / attributes / repetitions, depth 40), seeded random wide sequences (up to 4 documents, 16 nodes, depth 4) and seeded random sequences of 1-3 documents with up to 9 nodes and depth 3; distinct = distinct input texts", &sample);
+    stats.print("document sequences parse(D1), extend(D2..): exhaustive small forests under a root (names a,b; attribute lists over x,y,z; text/CDATA; both empty-element spellings) as singles, pairs, triples, a threshold family (1-9 same-named children then an empty occurrence, 2-7 parent occurrences with the child absent in one, in one document and across documents), seven big documents (300 distinct siblings / attributes / repetitions, depth 40), seeded random wide sequences (up to 4 documents, 16 nodes, depth 4) and seeded random sequences of 1-3 documents with up to 9 nodes and depth 3; distinct = distinct input texts", &sample);
 }
 
 // ------------------------------------------------------------------------------------------------ C05
@@ -774,6 +827,9 @@ fn search_c11(tier: &str, seed: u64) {
                 seqs.push(vec![a.clone(), b.clone()]);
             }
         }
+    }
+    for fam in threshold_family() {
+        seqs.push(fam);
     }
     let mut rng = Rng(seed ^ 0xc11);
     for _ in 0..(if thorough { 20000 } else { 2000 }) {
